@@ -358,6 +358,12 @@ func init() {
 			return m.hashUF(fr, "xxhash64", 64, a[0].(ByteSlice))
 		},
 
+		// rawalloc.New(len, cap): uninitialised bytes (modelled as zero, like make)
+		"github.com/cockroachdb/pebble/internal/rawalloc.New": func(m *Machine, fr *frame, a []Value) Value {
+			ln, cp := term(a[0]), term(a[1])
+			return ByteSlice{obj: m.newByteObj(cp), off: Const(64, 0), len: ln, cap: cp}
+		},
+
 		// ---- invariants (disabled-build behaviour is in the source; these are the runtime bits) ----
 		"github.com/cockroachdb/pebble/internal/invariants.SetFinalizer": nop,
 	}
